@@ -226,13 +226,20 @@ func c04(args []string) error {
 		big = append(big, 65538)
 	}
 	searches, calls := 0, 0
+	var explicit []geometry.Point // when set, record() uses these float points as they are (ranks mode)
 	record := func(pts [][]int, closed bool, name string, nq int, ranks bool) {
 		fpts := make([]geometry.Point, len(pts))
 		for i, p := range pts {
+			if explicit != nil {
+				break
+			}
 			fpts[i] = geometry.Point{X: float64(p[0]), Y: float64(p[1])}
 			if ranks { // non-lattice floats: the log then carries ranks, not values
 				fpts[i] = geometry.Point{X: float64(p[0])*0.1 + 1e-7*float64(p[1]%7), Y: math.Sqrt(float64(p[1])) * 3.7}
 			}
+		}
+		if explicit != nil {
+			fpts = explicit
 		}
 		n := len(pts)
 		cfgs := []geometry.IndexOptions{{Kind: geometry.None, MinPoints: 0}, {Kind: geometry.RTree, MinPoints: 1}, {Kind: geometry.QuadTree, MinPoints: 1},
@@ -445,6 +452,39 @@ func c04(args []string) error {
 		}
 		record(layouts[0].gen(rng, n), n%2 == 1, "uniform-floats", 5, true)
 	}
+	// vertices ON and ONE ULP AROUND the cell midlines of the series' bounding box (float midlines, several depths),
+	// and coordinates of huge magnitude: the order embedding makes arbitrary floats judgeable
+	for _, bb := range [][4]float64{{-180, -90, 56.7, 83.1}, {-73.3, 0.1, 141.9, 0.7}, {1e-3, -7e5, 7e5, 3}, {-1e308, -1e308, 1e308, 1.5e308}, {1e300, 1e300, 1.1e300, 2e300}} {
+		var mx, my []float64
+		var rec func(a, b float64, d int, out *[]float64)
+		rec = func(a, b float64, d int, out *[]float64) {
+			if d == 0 {
+				return
+			}
+			m := (a + b) / 2
+			*out = append(*out, m)
+			rec(a, m, d-1, out)
+			rec(m, b, d-1, out)
+		}
+		rec(bb[0], bb[2], 4, &mx)
+		rec(bb[1], bb[3], 4, &my)
+		var fp []geometry.Point
+		fp = append(fp, geometry.Point{X: bb[0], Y: bb[1]})
+		for i := range mx {
+			for _, dxu := range []int{-1, 0, 1} {
+				x, y := mx[i], my[(i*7+dxu+15)%len(my)]
+				if dxu != 0 {
+					x = math.Nextafter(x, math.Inf(dxu))
+					y = math.Nextafter(y, math.Inf(-dxu))
+				}
+				fp = append(fp, geometry.Point{X: x, Y: y})
+			}
+		}
+		fp = append(fp, geometry.Point{X: bb[2], Y: bb[3]})
+		explicit = fp
+		record(make([][]int, len(fp)), false, "float-midlines", 40, true)
+		explicit = nil
+	}
 	for _, n := range big {
 		l := layouts[rng.Intn(3)]
 		if n > 60000 {
@@ -452,6 +492,73 @@ func c04(args []string) error {
 		}
 		record(l.gen(rng, n), false, l.name, 6, false)
 	}
-	printJSON(obj{"events": ev.N, "series": st.Series, "searches": searches, "callbacks": calls, "index_stats": st})
+	// ---- callback ORDER of small indexed series, for the model-conformance diagnostic (Trace_QT / Trace_RT)
+	qt, err := newEvents(outdir + "/c04.qt.ndjson")
+	if err != nil {
+		return err
+	}
+	rt, err := newEvents(outdir + "/c04.rt.ndjson")
+	if err != nil {
+		return err
+	}
+	for _, n := range []int{5, 33, 34, 40, 70, 100, 160, 257} {
+		for li, l := range layouts[:8] {
+			if tier != "thorough" && (li+n)%2 == 0 {
+				continue
+			}
+			base := l.gen(rng, n)
+			closed := (li+n)%3 == 0
+			for _, kind := range []geometry.IndexKind{geometry.QuadTree, geometry.RTree} {
+				scale := 1
+				if kind == geometry.QuadTree {
+					scale = 1 << 16
+				}
+				pts := make([][]int, n)
+				fpts := make([]geometry.Point, n)
+				for i, p := range base {
+					x, y := p[0]%1025, p[1]%1025
+					pts[i] = []int{x * scale, y * scale}
+					fpts[i] = geometry.Point{X: float64(x * scale), Y: float64(y * scale)}
+				}
+				opts := geometry.IndexOptions{Kind: kind, MinPoints: 1}
+				var ser geometry.Series
+				func() {
+					defer func() {
+						if r := recover(); r != nil { // building the index panicked: reported through the main trace
+							ev.Emit(obj{"op": "panic", "sref": 1, "msg": fmt.Sprint(r), "kind": kind.String(), "minpts": 1, "q": []int{}, "hits": []int{}, "stop": 0, "dx": 0, "dy": 0})
+							ser = nil
+						}
+					}()
+					if closed {
+						ser = geometry.NewPoly(fpts, nil, &opts).Exterior
+					} else {
+						ser = geometry.NewLine(fpts, &opts)
+					}
+				}()
+				if ser == nil {
+					continue
+				}
+				for k := 0; k < 3; k++ {
+					a, b := pts[rng.Intn(n)], pts[rng.Intn(n)]
+					q := []int{minI(a[0], b[0]), minI(a[1], b[1]), maxI(a[0], b[0]), maxI(a[1], b[1])}
+					if k == 2 {
+						q = []int{-scale, -scale, 2000 * scale, 2000 * scale}
+					}
+					hits := []int{}
+					ser.Search(geometry.Rect{Min: geometry.Point{X: float64(q[0]), Y: float64(q[1])}, Max: geometry.Point{X: float64(q[2]), Y: float64(q[3])}},
+						func(_ geometry.Segment, idx int) bool { hits = append(hits, idx); return true })
+					e := obj{"op": "order", "pts": pts, "closed": closed, "q": q, "hits": hits, "layout": l.name}
+					if kind == geometry.QuadTree {
+						qt.Emit(e)
+					} else {
+						rt.Emit(e)
+					}
+				}
+			}
+		}
+	}
+	qt.Close()
+	rt.Close()
+	printJSON(obj{"events": ev.N, "series": st.Series, "searches": searches, "callbacks": calls, "index_stats": st, "order_events": qt.N + rt.N})
 	return nil
 }
